@@ -71,11 +71,12 @@ ASSUMPTIONS = [
     "modelled in the histories); normalize on int/float tables",
     "TableLookup histories: tables are non-empty python lists of int / float items; cycles != 0; lists are resized in "
     "place (append / pop) only in the histories marked unsafe, where the cached length goes stale (defect D16, theorem "
-    "hypothesis HOp.safe)",
+    "hypothesis HOp.safe); `tl.table = None` (a failing assignment, defect D17) likewise; after it only the table, len, "
+    "tl[idx], a call and a repairing assignment are observed",
     "long runs: values are small dyadic rationals so that binary floating point is exact over tens of thousands of steps",
 ]
 MANIFEST = {
-    "text": "47 Lean 4 theorems over any linearly ordered field with a floor (Q, R): every branch and fast path of "
+    "text": "48 Lean 4 theorems over any linearly ordered field with a floor (Q, R): every branch and fast path of "
             "modulo_counter = recursive spec = closed form (constant modulo), range, length; line/fades/ones/zeros/"
             "impulse/adsr/attack shapes and durations; TableLookup = cyclic linear interpolation of the unreduced "
             "position; sinusoid = sin(phase + k freq) over R; karplus_strong shift register = recursion; resample "
@@ -86,8 +87,8 @@ MANIFEST = {
             "differential correspondence (exact in the dyadic / Fraction regime) incl. object histories, pools of "
             "generators sharing arguments and long runs across the batch boundaries of every fast path",
     "note": "Trusted: Lean kernel, axioms propext/Classical.choice/Quot.sound, the Python harness; the model is hand "
-            "written and validated against the code differentially. Known genuine defects D6, D8, D14, D15 (fixed) and D16 "
-            "(stale cached table length, known) are recorded in known_findings/C19.json with proposed fixes under proposed_fixes/.",
+            "written and validated against the code differentially. Known genuine defects D6, D8, D14, D15 (fixed), D16 (stale "
+            "cached table length) and D17 (failing `table` assignment is not atomic) are recorded in known_findings/C19.json with proposed fixes under proposed_fixes/.",
 }
 
 F = Fraction
